@@ -630,7 +630,14 @@ func c10GenSmtp(r *vh.Rng, big bool) string {
 func TestVerifC10Smtp(t *testing.T) {
 	out := vh.Open("c10_smtp")
 	defer out.Close()
-	ep, err := c10StartEndpoint()
+	var ep *c10Endpoint
+	var err error
+	for try := 0; try < 5; try++ { // the port is picked, released and re-bound: another process may grab it in between
+		if ep, err = c10StartEndpoint(); err == nil {
+			break
+		}
+		time.Sleep(50 * time.Millisecond)
+	}
 	if err != nil {
 		t.Fatal(err)
 	}
